@@ -62,6 +62,15 @@ pub fn rand_version(rng: &mut Rng, attached: bool) -> u64 {
     }
 }
 
+/// Coq term of a file name: `(bs "...")` for printable text, a byte list otherwise
+pub fn nm(s: &str) -> String {
+    if s.bytes().all(|b| b >= 32 && b != 127) {
+        format!("(bs \"{}\")", s.replace('"', "\"\""))
+    } else {
+        hxlib::util::coq::str_bytes(s)
+    }
+}
+
 pub fn fname(s: ManifestNamingScheme, v: u64) -> String {
     s.manifest_path(&Path::from("base"), v).filename().unwrap().to_string()
 }
